@@ -33,6 +33,8 @@ type c15case struct {
 	gaps    []int // milliseconds slept before segment i
 	tms     int   // options.WithTimeoutSocket in milliseconds
 	rs      int   // options.WithTransportReadSize (0 = leave the default, 8192)
+	late    bool  // the server sends the opening only AFTER the client's Open has returned (after the negotiation window)
+	big     bool  // too long for the quadratic executable model: the model's answer is taken from the specification (theorem open_total)
 	tail    []byte
 	public  bool // run against the loopback server (all cases run through the internal tie)
 }
@@ -62,7 +64,7 @@ func strInts(s string) []int {
 
 // line is the replayable case; the Lean driver is asked with the first three fields only.
 func (cs *c15case) line() string {
-	return fmt.Sprintf("c15 open %s cuts=%s gaps=%s T=%d R=%d tail=%s", vlib.Hex(cs.opening), intsStr(cs.cuts), intsStr(cs.gaps), cs.tms, cs.rs, vlib.Hex(cs.tail))
+	return fmt.Sprintf("c15 open %s cuts=%s gaps=%s T=%d R=%d tail=%s", vlib.Hex(cs.opening), intsStr(cs.cuts), intsStr(cs.gaps), cs.tms, cs.rs, vlib.Hex(cs.tail)) + map[bool]string{true: " late=1", false: ""}[cs.late]
 }
 
 func c15parse(line string) (*c15case, error) {
@@ -85,6 +87,8 @@ func c15parse(line string) (*c15case, error) {
 			cs.tms, _ = strconv.Atoi(kv[2:])
 		case strings.HasPrefix(kv, "R="):
 			cs.rs, _ = strconv.Atoi(kv[2:])
+		case kv == "late=1":
+			cs.late = true
 		case strings.HasPrefix(kv, "tail="):
 			cs.tail, _ = vlib.UnHex(kv[5:])
 		}
@@ -316,13 +320,21 @@ func c15runPublic(cs *c15case, tms int, useGaps bool) (o c15obs) {
 			}
 		}()
 		rest := cs.opening
+		if cs.late {
+			select {
+			case <-openDone:
+			case <-time.After(20 * time.Second):
+			}
+		}
 		for i, c := range cs.cuts {
 			if useGaps && cs.gaps[i] > 0 {
 				time.Sleep(time.Duration(cs.gaps[i]) * time.Millisecond)
 			}
 			conn.Write(rest[:c])
 			rest = rest[c:]
-			stamps = append(stamps, time.Now())
+			if !cs.late {
+				stamps = append(stamps, time.Now())
+			}
 		}
 		select {
 		case <-openDone:
@@ -453,7 +465,7 @@ func hexListFlat(s string) string { // "a,b,c" hex list -> hex of the concatenat
 
 func runC15(c *ctx) {
 	res := c.res
-	res.Rule = "openings: generated token streams (negotiations 4 verbs x option codes, two-byte commands 241-249, escaped IAC, banner text runs) and IAC-rich byte soup (truncated sequences, SB/SE, IAC+arbitrary byte; outside the property, compared with the model only); every opening goes byte by byte through the real handleControlCharResponse (overlay export, recording net.Conn); a subset is sent by a loopback TCP server in a generated segmentation with pauses to the real telnet transport (NewTransport/Open/Read, socket timeouts 160-320 ms), with transport read sizes 1, 2, 7, 64, 8192 and default (openings whose data part is shorter than / equal to / one more than / several times the read size, incl. > 8192 bytes with the default), observing the bytes the server receives and the concatenation of the Reads up to the end of the post-opening text; histories: one transport object opened 2-4 times in a row against the loopback server (previous opening complete, cut by a server hang-up or by the end of the negotiation phase at every offset of a sequence), each opening judged on its own against the fresh-object model. non-trivial = opening with at least one IAC sequence; distinct by opening bytes + segmentation"
+	res.Rule = "openings: generated token streams (negotiations 4 verbs x option codes, two-byte commands 241-249, escaped IAC, banner text runs) and IAC-rich byte soup (truncated sequences, SB/SE, IAC+arbitrary byte; outside the property, compared with the model only); every opening goes byte by byte through the real handleControlCharResponse (overlay export, recording net.Conn); a subset is sent by a loopback TCP server in a generated segmentation with pauses to the real telnet transport (NewTransport/Open/Read, socket timeouts 160-320 ms), with transport read sizes 1, 2, 7, 64, 8192 and default (openings whose data part is shorter than / equal to / one more than / several times the read size, incl. > 8192 bytes with the default), observing the bytes the server receives and the concatenation of the Reads up to the end of the post-opening text; histories: one transport object opened 2-4 times in a row against the loopback server (previous opening complete, cut by a server hang-up or by the end of the negotiation phase at every offset of a sequence), each opening judged on its own against the fresh-object model; driver level: generic driver with transport type telnet, in-channel login (user-name prompt inside / after the negotiation window) or auth bypass, judged by the bytes the server receives, the bytes requeued after login, a first command's result, the channel's reads. non-trivial = opening with at least one IAC sequence; distinct by opening bytes + segmentation"
 	r := c.rng
 	var cases []*c15case
 	var hists []*c15hist
@@ -464,6 +476,15 @@ func runC15(c *ctx) {
 			return
 		}
 		runC15History(c, []*c15hist{h})
+		return
+	}
+	if strings.HasPrefix(c.replay, "c15 login ") {
+		g, err := c15parseLogin(c.replay)
+		if err != nil {
+			res.Fail("machinery", c.replay, err.Error(), "bad-replay")
+			return
+		}
+		runC15Login(c, []*c15login{g})
 		return
 	}
 	if c.replay != "" {
@@ -552,6 +573,104 @@ func runC15(c *ctx) {
 				cases = append(cases, cs)
 			}
 		}
+		// every option code x every verb at the public level (the step tie has them exhaustively): one
+		// opening per verb with all 256 requests
+		for verb := 251; verb <= 254; verb++ {
+			var op []byte
+			for o := 0; o < 256; o++ {
+				op = append(op, c15IAC, byte(verb), byte(o))
+			}
+			op = append(op, 'o', 'k')
+			cs := &c15case{class: "all-256-options", opening: op, public: true}
+			c15genSeg(r, cs)
+			cs.gaps = make([]int, len(cs.cuts))
+			cs.tms = 320
+			cases = append(cases, cs)
+		}
+		// very long openings: thousands of requests interleaved with text (about 100 KiB)
+		nBig := 1
+		if c.thorough() {
+			nBig = 3
+		}
+		for i := 0; i < nBig; i++ {
+			var op []byte
+			for k := 0; k < 6000; k++ {
+				op = append(op, c15IAC, byte(251+r.Intn(4)), byte(r.Intn(256)))
+				op = append(op, r.Bytes(r.Range(8, 18), c15Text)...)
+				if r.Chance(1, 50) {
+					op = append(op, c15IAC, c15IAC)
+				}
+			}
+			cs := &c15case{class: "max-length", opening: op, public: true, big: true}
+			c15genSeg(r, cs)
+			cs.cuts = nil
+			for rest := len(op); rest > 0; {
+				k := r.Range(1, 8192)
+				if k > rest {
+					k = rest
+				}
+				cs.cuts = append(cs.cuts, k)
+				rest -= k
+			}
+			cs.gaps = make([]int, len(cs.cuts))
+			cs.tms = 320
+			if i == 1 {
+				cs.rs = 64
+			}
+			cases = append(cases, cs)
+		}
+		// subnegotiation IAC SB ... IAC SE: not mentioned by the property (outside its domain); what the
+		// parser does with it is pinned against the model (theorem subneg_payload_delivered)
+		for _, h := range []string{
+			"fffb46fffa46014e414d450278fff06c6f67696e", // WILL MSSP, SB MSSP 1 "NAME" 2 "x" SE, "login"
+			"fffa1801fff0",             // SB TTYPE SEND SE
+			"61fffa2700ffff01fff062",   // a, SB NEW-ENVIRON 0 IAC IAC 1 SE, b
+			"fffa1f00500018fff0fffd03", // SB NAWS 80x24 SE, DO SGA
+		} {
+			op, _ := vlib.UnHex(h)
+			cs := &c15case{class: "subnegotiation", opening: op, public: true}
+			c15genSeg(r, cs)
+			cases = append(cases, cs)
+		}
+		// socket timeouts from tiny to large. Tiny: the negotiation window (TimeoutSocket/4) is over before
+		// anything can arrive; to make that deterministic the server sends its opening only after Open has
+		// returned ("late"): the bytes, negotiation included, then reach the reader unparsed and unanswered
+		// (the property speaks about the opening phase only; pinned against the model)
+		for _, tms := range []int{0, 1, 4, 160} {
+			for k := 0; k < 2; k++ {
+				op, _ := c15genOpening(r)
+				if k == 0 {
+					op = append([]byte{c15IAC, c15DO, 24, c15IAC, c15WILL, 1}, []byte("login")...)
+				}
+				cs := &c15case{class: "late-opening", opening: op, public: true, late: true}
+				c15genSeg(r, cs)
+				cs.tms = tms
+				cs.gaps = make([]int, len(cs.cuts))
+				cases = append(cases, cs)
+			}
+		}
+		for _, tms := range []int{1000, 2000} {
+			for k := 0; k < nBig; k++ {
+				op, _ := c15genOpening(r)
+				cs := &c15case{class: "large-timeout", opening: op, public: true}
+				c15genSeg(r, cs)
+				cs.tms = tms
+				cases = append(cases, cs)
+			}
+		}
+		// a negotiation that arrives after the opening phase (in the post-opening text): delivered to the
+		// reader as it is and not answered (pinned against the model)
+		for k := 0; k < 4; k++ {
+			op, _ := c15genOpening(r)
+			cs := &c15case{class: "negotiation-after-opening", opening: op, public: true}
+			c15genSeg(r, cs)
+			term := cs.tail[len(cs.tail)-1]
+			cs.tail = append(append([]byte("login"), c15IAC, byte(251+k), 24, 'x', c15IAC, 241), term)
+			if bytes.IndexByte(cs.tail[:len(cs.tail)-1], term) >= 0 {
+				continue
+			}
+			cases = append(cases, cs)
+		}
 		nPub := c.n(800, 6000)
 		for i := 0; i < c.n(4000, 100000); i++ {
 			op, kinds := c15genOpening(r)
@@ -575,19 +694,39 @@ func runC15(c *ctx) {
 		}
 	}
 
+	var logins []*c15login
 	if c.replay == "" {
 		hists = c15genHistories(c, r.Fork())
+		logins = c15genLogins(c, r.Fork())
 	}
 
 	// the model and the specification on every opening
 	lines := make([]string, len(cases))
 	for i, cs := range cases {
 		lines[i] = "c15 open " + vlib.Hex(cs.opening)
+		if cs.big {
+			lines[i] = "c15 spec " + vlib.Hex(cs.opening)
+		}
 	}
 	ans := c.ask(lines)
 	leans := make([]c15lean, len(cases))
 	for i := range cases {
+		if cases[i].big {
+			// the executable model appends to initialBuf byte by byte (quadratic); for very long openings
+			// its answer is the specification's, which theorem open_total proves equal for every stream
+			f := strings.Fields(ans[i])
+			if len(f) == 4 {
+				ans[i] = strings.Join([]string{f[0], f[1], f[2], f[3], f[1], f[2], f[3], f[1], f[2], f[3]}, " ")
+			}
+		}
 		l, ok := c15parseLean(ans[i])
+		if ok && cases[i].late {
+			// nothing arrives inside the negotiation window: initialBuf stays empty, nothing is answered, and
+			// Read hands the bytes on as the socket delivers them (theorem late_bytes_pass_through)
+			l.dom = false
+			l.model = c15state{"-", vlib.Hex(cases[i].opening), "."}
+			l.asis = l.model
+		}
 		if !ok {
 			res.Fail("machinery", cases[i].line(), "driver answered "+ans[i], "driver")
 			return
@@ -712,7 +851,11 @@ func runC15(c *ctx) {
 					obs[i] = c15runPublic(cs, cs.tms, true)
 				} else {
 					// re-run of a case that failed or whose timing was off: generous window, no pauses
-					obs[i] = c15runPublic(cs, 640*attempt, false)
+					w := 640 * attempt
+					if cs.late || cs.tms > w {
+						w = cs.tms
+					}
+					obs[i] = c15runPublic(cs, w, false)
 				}
 				attempts[i] = attempt + 1
 			}(i)
@@ -806,10 +949,14 @@ func runC15(c *ctx) {
 			if o.openErr == nil && len(o.reads) > 0 {
 				// Telnet.Read vs the model's Conn.read: initialBuf first, whole and once, then the socket's chunks
 				rest := o.reads
-				if l.model.data != "-" {
+				buf := l.model.data
+				if cs.late {
+					buf = "-"
+				}
+				if buf != "-" {
 					rest = rest[1:]
 				}
-				readLines = append(readLines, fmt.Sprintf("c15 reads %s %s %d", l.model.data, vlib.HexList(rest), len(o.reads)))
+				readLines = append(readLines, fmt.Sprintf("c15 reads %s %s %d", buf, vlib.HexList(rest), len(o.reads)))
 				readIdx = append(readIdx, i)
 			}
 		case "setup":
@@ -829,11 +976,17 @@ func runC15(c *ctx) {
 	// (d) history: one transport object opened several times in a row (public level only)
 	runC15History(c, hists)
 
+	// (e) end to end through the generic driver: in-channel telnet login / auth bypass after the opening
+	runC15Login(c, logins)
+
 	// (b) internal tie, streams: every generated opening through the real step function (after the
 	// public level, so that a failing input is reported with its public-level observation first)
 	if c15InternalAvailable {
 		for i, cs := range cases {
 			l := leans[i]
+			if cs.late {
+				continue
+			}
 			impl, perr := c15implStream(cs.opening)
 			res.Count("internal-stream:" + cs.class)
 			if l.dom {
